@@ -289,7 +289,9 @@ func (pp *panicProver) canon(v ssa.Value) lin {
 			if at, ok := deref(a.Type()).Underlying().(*types.Array); ok {
 				return lin{"", at.Len()}
 			}
-			return lin{"len(" + pp.canon(a).term + ")", 0}
+			// the same answer as lenOf gives for the value that is indexed (a
+			// slice of a fresh array with constant bounds has a constant length)
+			return pp.lenOf(a)
 		}
 		if c := v.Call.StaticCallee(); c != nil && c.String() == "unicode/utf8.RuneCountInString" {
 			return lin{"len(runes(" + pp.canon(v.Call.Args[0]).term + "))", 0}
